@@ -687,5 +687,5 @@ void Hist::drop_all(const std::vector<uint64_t>& order) {
     run_op(op);
   }
   if (failed() || g_run.foreign_seen) return;
-  if (sa_live_count() != 0) fail("C04", "memory-remains-after-all-references-dropped", fmt("%llu block(s) (%llu bytes) still live after the client dropped every reference", (unsigned long long)sa_live_count(), (unsigned long long)sa_live_bytes()));
+  if (sa_live_count_mine() != 0) fail("C04", "memory-remains-after-all-references-dropped", fmt("%llu block(s) (%llu bytes) still live after the client dropped every reference", (unsigned long long)sa_live_count(), (unsigned long long)sa_live_bytes()));
 }
